@@ -46,6 +46,7 @@ class K:
             return v
 
 def outer():
+    v = 7
     def nested(x):
         v = x * 10
         return v
@@ -84,10 +85,12 @@ class Universe:
             ("K.Inner.m", M.K.Inner.m, M.K.Inner.m, lambda x: inner.m(x), lambda x: x - 2),
             ("nested", M.nested, M.nested, lambda x: M.nested(x), lambda x: x * 10),
             ("decorated", M.decorated, M.decorated.__wrapped__, lambda x: M.decorated(x), lambda x: x + 100),
+            # the function that DEFINES another one (whose live instance keeps its own reference)
+            ("outer", M.outer, M.outer, lambda x: (M.outer(), None)[1], lambda x: 7),
         ]
         self.by_name = {"m": "m > v", "other": "other > v", "K.m": "K.m > v", "K.other": "K.other > v",
                         "K.Inner.deep": "K.Inner.deep > v", "K.Inner.m": "K.Inner.m > v",
-                        "nested": "nested > v", "decorated": "decorated > v"}
+                        "nested": "nested > v", "decorated": "decorated > v", "outer": "outer > v"}
 
     def drop(self):
         sys.modules.pop(self.name, None)
@@ -143,7 +146,7 @@ def run_history(chk, uni, drv, rng, stats):
                 fi = rng.randrange(n)
                 by = rng.choice(["name", "ref"])
                 label, fn, target, _, _ = uni.fns[fi]
-                extra = rng.choice(["", "", "x"])
+                extra = rng.choice(["", "", "x"]) if label != "outer" else ""
                 if by == "name":
                     sel = uni.by_name[label] if not extra else uni.by_name[label].replace(" > v", "(x) > v")
                 else:
@@ -245,7 +248,7 @@ def run(chk):
     chk.cov["rule"] = (
         "a generated module on disk with a module-level function, a second one, methods of a class and of a "
         "nested class that SHARE NAMES with the module-level functions, a function defined inside a function "
-        "(one live instance) and a functools.wraps-decorated function; histories of 4-11 operations: activate "
+        "(one live instance), the function that defines it, and a functools.wraps-decorated function; histories of 4-11 operations: activate "
         "a probe by name or by reference (optionally capturing a second variable), deactivate in any order, "
         "call, resolve; after EVERY step the reference of every function is resolved. non-trivial = at least "
         "one activation and four steps")
